@@ -32,8 +32,9 @@ _TMP = None
 
 def tmpdir():
     global _TMP
-    if _TMP is None:
-        _TMP = tempfile.mkdtemp(prefix="c19-", dir=os.environ.get("VERIF_SCRATCH") or None)
+    scratch = os.environ.get("VERIF_SCRATCH") or None
+    if _TMP is None or not os.path.isdir(_TMP) or (scratch and not _TMP.startswith(scratch)):
+        _TMP = tempfile.mkdtemp(prefix="c19-", dir=scratch)
         atexit.register(shutil.rmtree, _TMP, True)
     return _TMP
 
